@@ -52,6 +52,13 @@ def recipe_pool(rng, src):
   return pool
 
 
+def needs_statistics(q):
+  """Reference for 'this recipe needs calibration': some exported rule is static-range (integer compute + activation config).
+  Deliberately NOT the library's own need_calibration property, whose answer is part of what is being observed."""
+  rec = recipes.json_recipe(q.get_quantization_recipe())
+  return any(e['op_config'].get('compute_precision') == 'INTEGER' and 'activation_tensor_config' in e['op_config'] for e in rec)
+
+
 def rules_to_json(rules):
   out = []
   for rx, sel, name in rules:
@@ -129,7 +136,7 @@ def run_case(ctx, case, rng):
           q.update_quantization_recipe(rx, OP(sel), cfg, alg)
         ctx.steps.append(['update', qi, [rx, sel, name]])
       elif kind == 'calibrate':
-        if not q.get_quantization_recipe() or not q.need_calibration:
+        if not q.get_quantization_recipe() or not needs_statistics(q):
           continue
         prev = cals[int(rng.integers(len(cals)))] if cals and rng.random() < 0.4 else None
         with Watch(ctx, 'calibrate', model=model, data=data, previous=prev):
@@ -140,7 +147,7 @@ def run_case(ctx, case, rng):
       elif kind == 'quantize':
         if not q.get_quantization_recipe():
           continue
-        if q.need_calibration:
+        if needs_statistics(q):
           if not cals:
             continue
           ci = int(rng.integers(len(cals)))
